@@ -71,6 +71,8 @@ def run(ctx) -> None:
   ctx.rule('R8', 'every SQL filter is an exact equality on key columns (the RAM backend addresses '
            'rows by exact dict keys): no LIKE/startswith/contains/range filters', 30)
   ctx.rule('R9', 'SQL backend: every in-memory container is invalidated by every method that writes a table it was filled from', 1)
+  ctx.rule('R10', 'RAM update_trial never inserts: the row store is dominated by an existence test of the same key '
+           '(DeleteTrial takes no study lock, so a blind store resurrects a trial deleted in between)', 1)
   if len(svc.ds_abstract) < 20:
     raise AnalysisError(f'only {len(svc.ds_abstract)} abstract DataStore methods found (20 on the pinned tree)')
 
@@ -83,6 +85,7 @@ def run(ctx) -> None:
   r7_max(ctx, svc)
   r8_exact_filters(ctx, svc)
   r9_sql_caches(ctx, svc)
+  r10_update_never_inserts(ctx, svc)
 
 
 # ----------------------------------------------------------------------- R9
@@ -102,6 +105,47 @@ def _tables_written(fn: ast.AST) -> Set[str]:
       if d.startswith('self._') and d.endswith('_table'):
         out.add(d[5:])
   return out
+
+
+def r10_update_never_inserts(ctx, svc: Svc) -> None:
+  fi = svc.ram.methods.get('update_trial')
+  if fi is None:
+    raise AnalysisError('RAMDataStore.update_trial not found')
+  g = cfgmod.CFG(fi.node)
+  dom = g.dominators()
+
+  def canon(e: ast.AST) -> str:
+    return unparse(flow.resolve_local(fi.node, e), 0)
+  stores = [(n, t) for n in g.nodes if n.kind == 'stmt' and isinstance(n.ast, ast.Assign) for t in n.ast.targets
+            if isinstance(t, ast.Subscript)]
+  if not stores:
+    raise AnalysisError('RAMDataStore.update_trial: row store not found')
+  for n, t in stores:
+    cont, key = canon(t.value), unparse(t.slice, 0)
+    guarded = False
+    for m in g.nodes:
+      if m.id not in dom[n.id] or m is n:
+        continue
+      if m.kind == 'test':
+        tst, neg = m.ast, False
+        while isinstance(tst, ast.UnaryOp) and isinstance(tst.op, ast.Not):
+          tst, neg = tst.operand, not neg
+        if isinstance(tst, ast.Compare) and len(tst.ops) == 1 and isinstance(tst.ops[0], (ast.In, ast.NotIn)) \
+            and unparse(tst.left, 0) == key and canon(tst.comparators[0]) == cont:
+          present_label = 'T' if (isinstance(tst.ops[0], ast.In) != neg) else 'F'
+          # the store must be reachable only through the "present" side
+          other = [x for x, lab in m.succs if lab != present_label and lab in ('T', 'F')]
+          if n not in g.reachable(other, include_starts=True):
+            guarded = True
+      for e_ in flow.node_exprs(m):
+        for x in ast.walk(e_):
+          if isinstance(x, ast.Subscript) and isinstance(x.ctx, ast.Load) and unparse(x.slice, 0) == key and canon(x.value) == cont:
+            guarded = True
+    ctx.check(guarded, 'R10', f'RAM.update_trial: store into `{unparse(t.value, 40)}`', where(fi, n),
+              'dominated by an existence test of the same key',
+              f'`{unparse(t, 60)} = ...` is not preceded by an existence test of `{key}`: updating a trial that was deleted in the '
+              'meantime (DeleteTrial does not take the study lock) silently re-creates it instead of raising NotFoundError; the SQL backend raises',
+              construct='update_trial:upsert', func=fi.qualname)
 
 
 def r9_sql_caches(ctx, svc: Svc) -> None:
